@@ -27,6 +27,16 @@ Proof.
   - apply str_eqb_neq in E. rewrite labels_dupd_other by assumption. rewrite app_nil_r. reflexivity.
 Qed.
 
+Lemma labels_dupd_gen d k k' f :
+  labels_of (dupd d k [] f) k' = if str_eqb k k' then f (labels_of d k') else labels_of d k'.
+Proof.
+  destruct (str_eqb k k') eqn:E.
+  - apply str_eqb_eq in E. subst k'. unfold labels_of, dupd.
+    destruct (dget d k) as [v|] eqn:Ek; rewrite dget_dset_same; reflexivity.
+  - apply str_eqb_neq in E. unfold labels_of, dupd.
+    destruct (dget d k) as [v|]; rewrite dget_dset_other by assumption; reflexivity.
+Qed.
+
 (** keys stay distinct *)
 Lemma dset_keys_mem {V} (d : dict V) k v v' : dget d k = Some v' -> map fst (dset d k v) = map fst d.
 Proof.
@@ -65,6 +75,12 @@ Proof.
   - destruct H as [H|H]; [auto|]. apply in_app_iff in H. destruct H; [|auto].
     left. apply (labels_in_all d k). unfold labels_of. rewrite E. assumption.
   - destruct H as [H|H]; [auto|]. cbn in H. auto.
+Qed.
+
+Lemma all_classes_dupd_gen d k f y :
+  In y (all_classes_in (dupd d k [] f)) -> In y (all_classes_in d) \/ In y (f (labels_of d k)).
+Proof.
+  unfold dupd, labels_of. destruct (dget d k) as [v|] eqn:E; intros H; apply all_classes_dset in H; tauto.
 Qed.
 
 (** ** the pure tracker *)
@@ -108,13 +124,49 @@ Qed.
 Definition targets_contrib (k label : str) (nodes : list str) : list str :=
   flat_map (fun n => if str_eqb n k then [label] else []) nodes.
 
-Lemma fold_add_label nodes : forall d label k,
-  labels_of (fold_left (fun acc n => add_label acc n label) nodes d) k =
-  labels_of d k ++ targets_contrib k label nodes.
+(** [add_label] with the membership test of the code (flag_dedup) *)
+Lemma labels_add_label d n label k :
+  labels_of (add_label d n label) k =
+  if str_eqb n k
+  then (if mem_str label (labels_of d k) then labels_of d k else labels_of d k ++ [label])
+  else labels_of d k.
+Proof. unfold add_label. rewrite labels_dupd_gen, flag_dedup. reflexivity. Qed.
+
+Lemma In_add_label d n label k key :
+  In key (labels_of (add_label d n label) k) <->
+  In key (labels_of d k) \/ (n = k /\ key = label).
 Proof.
-  induction nodes as [|n nodes IH]; intros d label k; cbn.
-  - rewrite app_nil_r. reflexivity.
-  - rewrite IH. unfold add_label. rewrite labels_dupd. rewrite <- app_assoc. reflexivity.
+  rewrite labels_add_label. destruct (str_eqb n k) eqn:E.
+  - apply str_eqb_eq in E. subst k. destruct (mem_str label (labels_of d n)) eqn:M.
+    + apply mem_str_In in M. split; [auto|]. intros [H|[_ ->]]; assumption.
+    + rewrite in_app_iff. cbn [In]. split; [intros [H|[H|[]]]; auto | intros [H|[_ ->]]; auto].
+  - apply str_eqb_neq in E. split; [auto | intros [H|[H _]]; [assumption | contradiction]].
+Qed.
+
+Lemma NoDup_add_label d n label k : NoDup (labels_of d k) -> NoDup (labels_of (add_label d n label) k).
+Proof.
+  intros H. rewrite labels_add_label. destruct (str_eqb n k); [|assumption].
+  destruct (mem_str label (labels_of d k)) eqn:M; [assumption|].
+  apply NoDup_snoc; [assumption|]. intros Hin. apply mem_str_In in Hin. congruence.
+Qed.
+
+Lemma fold_add_label nodes : forall d label k key,
+  In key (labels_of (fold_left (fun acc n => add_label acc n label) nodes d) k) <->
+  In key (labels_of d k) \/ In key (targets_contrib k label nodes).
+Proof.
+  induction nodes as [|n nodes IH]; intros d label k key; cbn [fold_left].
+  - unfold targets_contrib. cbn. tauto.
+  - rewrite IH, In_add_label. unfold targets_contrib. cbn [flat_map]. rewrite in_app_iff.
+    destruct (str_eqb n k) eqn:E.
+    + apply str_eqb_eq in E. cbn [In]. intuition (subst; auto).
+    + apply str_eqb_neq in E. cbn [In]. intuition congruence.
+Qed.
+
+Lemma fold_add_label_nodup nodes : forall d label k,
+  NoDup (labels_of d k) -> NoDup (labels_of (fold_left (fun acc n => add_label acc n label) nodes d) k).
+Proof.
+  induction nodes as [|n nodes IH]; intros d label k H; cbn [fold_left]; [assumption|].
+  apply IH. apply NoDup_add_label. assumption.
 Qed.
 
 Lemma fold_add_label_all nodes : forall d label y,
@@ -123,7 +175,10 @@ Lemma fold_add_label_all nodes : forall d label y,
 Proof.
   induction nodes as [|n nodes IH]; intros d label y; cbn; [auto|].
   intros H. apply IH in H. destruct H as [H|H]; [|auto].
-  unfold add_label in H. apply all_classes_dupd in H. destruct H as [H|[H|[]]]; auto.
+  unfold add_label in H. apply all_classes_dupd_gen in H. destruct H as [H|H]; [auto|].
+  destruct (c_sm_dedup_labels && mem_str label (labels_of d n)).
+  - left. apply (labels_in_all d n). assumption.
+  - apply in_app_iff in H. destruct H as [H|[H|[]]]; [left; apply (labels_in_all d n); assumption | auto].
 Qed.
 
 Definition item_contrib (orc : oracles) (G : graph) (k : str) (it : pitem) : list str :=
@@ -136,20 +191,23 @@ Lemma track_items_char orc G items :
   forall d,
     (forall it, In it items -> pi_sel it <> PSNone) ->
     exists d', track_items orc G items d = Ok d' /\
-               (forall k, labels_of d' k = labels_of d k ++ flat_map (item_contrib orc G k) items) /\
+               (forall k key, In key (labels_of d' k) <->
+                              In key (labels_of d k) \/ In key (flat_map (item_contrib orc G k) items)) /\
+               (forall k, NoDup (labels_of d k) -> NoDup (labels_of d' k)) /\
                (forall y, In y (all_classes_in d') -> In y (all_classes_in d) \/ In y (map pi_label items)).
 Proof.
   induction items as [|it items IH]; intros d Hne.
-  - exists d. cbn. repeat split; auto. intros k. rewrite app_nil_r. reflexivity.
+  - exists d. cbn. repeat split; auto. intros [H|[]]; assumption.
   - cbn [track_items]. unfold solve_item.
     assert (exists nodes, sel_targets orc G (pi_sel it) = Ok nodes) as [nodes Hn].
     { specialize (Hne it (or_introl eq_refl)). destruct (pi_sel it); cbn; eauto. contradiction. }
     rewrite Hn. cbn [bind].
-    destruct (IH (fold_left (fun acc n => add_label acc n (pi_label it)) nodes d)) as [d' [Hd' [Hl Ha]]].
+    destruct (IH (fold_left (fun acc n => add_label acc n (pi_label it)) nodes d)) as [d' [Hd' [Hl [Hnd Ha]]]].
     { intros it' Hit'. apply Hne. right. assumption. }
-    exists d'. split; [assumption|]. split.
-    + intros k. rewrite Hl, fold_add_label. cbn [flat_map]. unfold item_contrib at 2. rewrite Hn.
-      rewrite <- app_assoc. reflexivity.
+    exists d'. split; [assumption|]. split; [|split].
+    + intros k key. rewrite Hl, fold_add_label. cbn [flat_map]. rewrite in_app_iff.
+      unfold item_contrib at 2. rewrite Hn. tauto.
+    + intros k H. apply Hnd. apply fold_add_label_nodup. assumption.
     + intros y Hy. destruct (Ha y Hy) as [H|H]; [|right; right; assumption].
       apply fold_add_label_all in H. destruct H as [H|H]; [auto|]. right. left. auto.
 Qed.
@@ -476,16 +534,19 @@ Qed.
 
 Lemma ok_item_split ns pd orc G it :
   ok_item ns pd orc G it = true ->
-  is_angle (it_label it) = true /\ ok_ref ns pd false (it_label it) = true /\
+  ok_label ns pd (it_label it) = true /\
   ok_selector ns pd (o_wf orc) (it_sel it) = true /\
   forallb is_iri_obj (selects_list ns (o_ans orc) G (it_sel it)) = true.
-Proof. unfold ok_item. intros H. repeat (apply andb_true_iff in H; destruct H as [H ?]). auto. Qed.
+Proof.
+  unfold ok_item. intros H. apply andb_true_iff in H; destruct H as [H H2].
+  apply andb_true_iff in H; destruct H as [H0 H1]. auto.
+Qed.
 
 Lemma ok_item_syn_of ns orc G it :
   ok_item ns (pd_of ns) orc G it = true -> ok_item_syn ns (o_wf orc) it = true.
 Proof.
-  intros H. destruct (ok_item_split _ _ _ _ _ H) as [H1 [H2 [H3 _]]]. unfold ok_item_syn.
-  rewrite H1, H2, H3. reflexivity.
+  intros H. destruct (ok_item_split _ _ _ _ _ H) as [H1 [H2 _]]. unfold ok_item_syn.
+  rewrite H1, H2. reflexivity.
 Qed.
 
 (** ** the run *)
@@ -624,10 +685,14 @@ Proof.
     destruct (to t) as [o|]; [eauto | discriminate].
 Qed.
 
+(** the dictionary of a run: per node, the (repetition-free) labels of the
+    shape map followed by the classes *)
 Lemma run_char tg cs fmt orc G :
   C10_dom tg orc G = true ->
-  exists d, run orc (to_tspec tg cs fmt) G = OOk d /\
-            forall k, labels_of d k = items_part tg orc G k ++ class_part tg G k.
+  exists d L1, run orc (to_tspec tg cs fmt) G = OOk d /\
+               (forall k, labels_of d k = L1 k ++ class_part tg G k) /\
+               (forall k key, In key (L1 k) <-> In key (items_part tg orc G k)) /\
+               (forall k, NoDup (L1 k)).
 Proof.
   intros Hdom. destruct (dom_facts_of _ _ _ Hdom) as [p0 F]. pose proof (df_ns _ _ _ _ F) as W.
   unfold run. rewrite (check_targets_ok _ cs fmt _ _ _ F). cbn [negb].
@@ -635,16 +700,20 @@ Proof.
           (tau_run _ cs fmt _ _ _ F).
   unfold items_part, class_part.
   destruct (t_items tg) as [its|] eqn:Ei; cbn [option_map].
-  - destruct (track_items_char orc G (map (citem (t_ns tg)) its) [] (citem_not_none _ its)) as [d1 [Hd1 [Hl1 Ha1]]].
+  - destruct (track_items_char orc G (map (citem (t_ns tg)) its) [] (citem_not_none _ its))
+      as [d1 [Hd1 [Hl1 [Hnd1 Ha1]]]].
     rewrite Hd1.
+    assert (HL1 : forall k key, In key (labels_of d1 k) <->
+                                In key (flat_map (item_contrib orc G k) (map (citem (t_ns tg)) its))).
+    { intros k key. rewrite Hl1. cbn. tauto. }
+    assert (HN1 : forall k, NoDup (labels_of d1 k)) by (intros k; apply Hnd1; constructor).
     destruct (mode_of tg) as [m|] eqn:Em.
     + destruct (track_plain_char (cref (t_ns tg) (t_tau tg)) m G [] (relevant_has_node _ _ _ _ _ F Em))
         as [d2 [Hd2 [Hl2 [Hn2 Ha2]]]].
       rewrite Hd2. cbn [of_terr].
-      eexists. split; [reflexivity|]. intros k. unfold integrate_dicts.
-      rewrite integrate_entries_char.
-      * rewrite Hl1. cbn [labels_of dget app]. rewrite entries_contrib_nodup by (apply Hn2; constructor).
-        rewrite Hl2. reflexivity.
+      eexists. exists (labels_of d1). split; [reflexivity|]. split; [|split; assumption].
+      intros k. unfold integrate_dicts. rewrite integrate_entries_char.
+      * rewrite entries_contrib_nodup by (apply Hn2; constructor). rewrite Hl2. reflexivity.
       * (* no key collision: labels are bracketed, class identifiers are not *)
         intros y Hy. destruct (Ha2 y Hy) as [[]|[t [o [Ht [R [Eo ->]]]]]].
         assert (Ea : t_all tg = true).
@@ -658,14 +727,14 @@ Proof.
         destruct (mem_str c (all_classes_in d1)) eqn:Emem; [|reflexivity].
         apply mem_str_In in Emem. destruct (Ha1 _ Emem) as [[]|Hlab].
         rewrite map_map in Hlab. apply in_map_iff in Hlab. destruct Hlab as [it [Hl Hit]].
-        unfold citem in Hl. cbn [pi_label] in Hl.
-        destruct (ok_item_split _ _ _ _ _ (df_items _ _ _ _ F its Ei it Hit)) as [Hang _].
-        destruct (it_label it); try discriminate. cbn [show_ref] in Hl. rewrite <- Hl in Hlt. discriminate.
-    + eexists. split; [reflexivity|]. intros k. rewrite Hl1, app_nil_r. reflexivity.
+        unfold citem, clabel in Hl. cbn [pi_label] in Hl. rewrite <- Hl in Hlt. discriminate.
+    + eexists. exists (labels_of d1). split; [reflexivity|]. split; [|split; assumption].
+      intros k. rewrite app_nil_r. reflexivity.
   - destruct (mode_of tg) as [m|] eqn:Em.
     + destruct (track_plain_char (cref (t_ns tg) (t_tau tg)) m G [] (relevant_has_node _ _ _ _ _ F Em))
         as [d2 [Hd2 [Hl2 _]]].
-      rewrite Hd2. cbn [of_terr]. eexists. split; [reflexivity|]. intros k. rewrite Hl2. reflexivity.
+      rewrite Hd2. cbn [of_terr]. eexists. exists (fun _ => []). split; [reflexivity|].
+      split; [|split]; [intros k; rewrite Hl2; reflexivity | intros; tauto | intros; constructor].
     + exfalso. unfold mode_of in Em. pose proof (df_shape _ _ _ _ F) as Hs.
       destruct (t_all tg); [discriminate|]. rewrite Ei in Hs. destruct (t_classes tg); [discriminate|].
       cbn in Hs. discriminate.
@@ -676,7 +745,7 @@ Qed.
 Lemma items_part_spec tg orc G p0 key n :
   dom_facts tg orc G p0 -> wf_node n = true ->
   (In key (items_part tg orc G (nid n)) <->
-   exists its it l, t_items tg = Some its /\ In it its /\ it_label it = Angle l /\
+   exists its it l, t_items tg = Some its /\ In it its /\ resolve (t_ns tg) (it_label it) = Some l /\
                     key = Str "<" ++ l ++ Str ">" /\
                     selects (t_ns tg) (o_ans orc) G (it_sel it) (ON n)).
 Proof.
@@ -685,21 +754,21 @@ Proof.
   2:{ split; [intros [] | intros [its [it [l [H _]]]]; discriminate]. }
   rewrite in_flat_map. split.
   - intros [pit [Hpit Hin]]. apply in_map_iff in Hpit. destruct Hpit as [it [<- Hit]].
-    destruct (ok_item_split _ _ _ _ _ (df_items _ _ _ _ F its Ei it Hit)) as [Hang [_ [Hsel Hiri]]].
+    destruct (ok_item_split _ _ _ _ _ (df_items _ _ _ _ F its Ei it Hit)) as [Hlab [Hsel Hiri]].
+    destruct (parse_label_ok _ _ _ W Hlab) as [_ Hres].
     unfold item_contrib, citem in Hin. cbn [pi_sel pi_label] in Hin.
     rewrite (sel_targets_csel _ _ _ _ _ W Hsel) in Hin.
     apply In_targets_contrib in Hin. destruct Hin as [-> Hk].
-    destruct (it_label it) as [i0|l|p1 l1] eqn:El; try discriminate.
-    exists its, it, l. repeat split; auto.
+    exists its, it, (cref (t_ns tg) (it_label it)). repeat split; auto.
     apply selects_list_spec. apply selects_list_rdflib.
     apply (In_rdflib_str (o_rid orc)); [|assumption|assumption].
     apply forallb_forall. intros x Hx. apply (proj1 (selects_list_rdflib _ _ _ _ _)) in Hx.
     rewrite forallb_forall in Hiri. auto.
   - intros [its' [it [l [E [Hit [El [-> Hs]]]]]]]. inversion E; subst its'.
-    destruct (ok_item_split _ _ _ _ _ (df_items _ _ _ _ F its Ei it Hit)) as [Hang [_ [Hsel Hiri]]].
+    destruct (ok_item_split _ _ _ _ _ (df_items _ _ _ _ F its Ei it Hit)) as [Hlab [Hsel Hiri]].
     exists (citem (t_ns tg) it). split; [apply in_map; assumption|].
     unfold item_contrib, citem. cbn [pi_sel pi_label]. rewrite (sel_targets_csel _ _ _ _ _ W Hsel).
-    apply In_targets_contrib. rewrite El. split; [reflexivity|].
+    apply In_targets_contrib. split; [unfold clabel, cref; rewrite El; reflexivity|].
     apply (In_rdflib_str (o_rid orc)); [|assumption|].
     + apply forallb_forall. intros x Hx. apply (proj1 (selects_list_rdflib _ _ _ _ _)) in Hx. rewrite forallb_forall in Hiri. auto.
     + apply selects_list_rdflib. apply selects_list_spec. assumption.
@@ -711,11 +780,9 @@ Lemma items_part_angle tg orc G p0 key k :
 Proof.
   intros F. unfold items_part. destruct (t_items tg) as [its|] eqn:Ei; [|intros []].
   rewrite in_flat_map. intros [pit [Hpit Hin]]. apply in_map_iff in Hpit. destruct Hpit as [it [<- Hit]].
-  destruct (ok_item_split _ _ _ _ _ (df_items _ _ _ _ F its Ei it Hit)) as [Hang _].
   unfold item_contrib, citem in Hin. cbn [pi_sel pi_label] in Hin.
   destruct (sel_targets orc G (csel (t_ns tg) (it_sel it))); [|destruct Hin].
-  apply In_targets_contrib in Hin. destruct Hin as [-> _].
-  destruct (it_label it); try discriminate. apply has_corners_angle.
+  apply In_targets_contrib in Hin. destruct Hin as [-> _]. apply has_corners_angle.
 Qed.
 
 Lemma class_part_plain tg orc G p0 key k :
@@ -763,9 +830,9 @@ Theorem instances_denote tg cs fmt orc G :
             forall S n, wf_key S = true -> wf_node n = true ->
                         (In (key_of S) (labels_of d (node_key n)) <-> denote tg (o_ans orc) G S (ON n)).
 Proof.
-  intros Hdom. destruct (run_char tg cs fmt orc G Hdom) as [d [Hrun Hl]].
+  intros Hdom. destruct (run_char tg cs fmt orc G Hdom) as [d [L1 [Hrun [Hl [HL1 _]]]]].
   destruct (dom_facts_of _ _ _ Hdom) as [p0 F]. pose proof (df_ns _ _ _ _ F) as W.
-  exists d. split; [assumption|]. intros S n WS Wn. unfold node_key. rewrite Hl, in_app_iff.
+  exists d. split; [assumption|]. intros S n WS Wn. unfold node_key. rewrite Hl, in_app_iff, HL1.
   destruct (tau_ok _ _ _ W (df_tau _ _ _ _ F)) as [_ [Htau _]].
   destruct S as [c|l]; cbn [key_of denote wf_key] in *.
   - apply andb_true_iff in WS. destruct WS as [Wc1 Wc2]. apply negb_true_iff in Wc1. apply negb_true_iff in Wc2.
@@ -782,11 +849,9 @@ Proof.
   - split.
     + intros [H|H].
       * apply (items_part_spec _ _ _ _ _ _ F Wn) in H. destruct H as [its [it [l' [Ei [Hit [El [E Hs]]]]]]].
-        apply angle_inj in E. subst l'. exists its, it. rewrite El. cbn [resolve]. auto.
+        apply angle_inj in E. subst l'. exists its, it. auto.
       * apply (class_part_plain _ _ _ _ _ _ F) in H. destruct H as [H _]. rewrite has_corners_angle in H. discriminate.
     + intros [its [it [Ei [Hit [Hres Hs]]]]]. left. apply (items_part_spec _ _ _ _ _ _ F Wn).
-      destruct (ok_item_split _ _ _ _ _ (df_items _ _ _ _ F its Ei it Hit)) as [Hang _].
-      destruct (it_label it) as [i0|l'|p1 l1] eqn:El; try discriminate. cbn [resolve] in Hres. inversion Hres; subst l'.
       exists its, it, l. auto.
 Qed.
 
@@ -801,21 +866,20 @@ Proof.
   intros Hdom d Hrun k key Hin.
   destruct (instances_denote tg cs fmt orc G Hdom) as [d' [Hrun' Hden]].
   rewrite Hrun in Hrun'. inversion Hrun'; subst d'.
-  destruct (run_char tg cs fmt orc G Hdom) as [d' [Hrun'' Hl]].
+  destruct (run_char tg cs fmt orc G Hdom) as [d' [L1 [Hrun'' [Hl [HL1 _]]]]].
   rewrite Hrun in Hrun''. inversion Hrun''; subst d'.
   destruct (dom_facts_of _ _ _ Hdom) as [p0 F]. pose proof (df_ns _ _ _ _ F) as W.
-  pose proof Hin as Hin0. rewrite Hl, in_app_iff in Hin. destruct Hin as [H|H].
+  pose proof Hin as Hin0. rewrite Hl, in_app_iff, HL1 in Hin. destruct Hin as [H|H].
   - (* an item label stored for the rdflib string of an answer *)
     unfold items_part in H. destruct (t_items tg) as [its|] eqn:Ei; [|destruct H].
     rewrite in_flat_map in H. destruct H as [pit [Hpit H]]. apply in_map_iff in Hpit. destruct Hpit as [it [<- Hit]].
-    destruct (ok_item_split _ _ _ _ _ (df_items _ _ _ _ F its Ei it Hit)) as [Hang [_ [Hsel Hiri]]].
+    destruct (ok_item_split _ _ _ _ _ (df_items _ _ _ _ F its Ei it Hit)) as [Hlab [Hsel Hiri]].
     unfold item_contrib, citem in H. cbn [pi_sel pi_label] in H.
     rewrite (sel_targets_csel _ _ _ _ _ W Hsel) in H. apply In_targets_contrib in H. destruct H as [-> Hk].
     apply in_map_iff in Hk. destruct Hk as [x [Hx Hxin]]. apply (proj1 (selects_list_rdflib _ _ _ _ _)) in Hxin.
     rewrite forallb_forall in Hiri. pose proof (Hiri x Hxin) as Hxi.
     destruct x as [[[|] i]|]; try discriminate. cbn in Hx, Hxi. subst k.
-    destruct (it_label it) as [i0|l|p1 l1] eqn:El; try discriminate.
-    exists (KLabel l), (Node KIri i). repeat split; auto.
+    exists (KLabel (cref (t_ns tg) (it_label it))), (Node KIri i). repeat split; auto.
     apply Hden; auto.
   - pose proof (class_part_plain _ _ _ _ _ _ F H) as [Hc1 Hc2].
     unfold class_part in H. destruct (mode_of tg) as [m|] eqn:Em; [|destruct H].
@@ -885,7 +949,7 @@ Proof.
   intros Hdom. destruct (dom_facts_of _ _ _ Hdom) as [p0 F]. destruct S as [c0|l]; cbn [denote].
   - intros [tau [s [_ [H _]]]]. discriminate.
   - intros [its [it [Ei [Hit [_ Hs]]]]].
-    destruct (ok_item_split _ _ _ _ _ (df_items _ _ _ _ F its Ei it Hit)) as [_ [_ [_ Hiri]]].
+    destruct (ok_item_split _ _ _ _ _ (df_items _ _ _ _ F its Ei it Hit)) as [_ [_ Hiri]].
     apply selects_list_spec in Hs. rewrite forallb_forall in Hiri. specialize (Hiri _ Hs). discriminate.
 Qed.
 
@@ -990,27 +1054,6 @@ Qed.
 Lemma rdflib_graph_nodup G : nodup_graph G = true -> rdflib_graph G = G.
 Proof. intros H. apply dedup_nodup; [assumption | reflexivity]. Qed.
 
-Lemma items_count tg orc G p0 l n :
-  dom_facts tg orc G p0 -> wf_node n = true ->
-  count_str (Str "<" ++ l ++ Str ">") (items_part tg orc G (nid n)) =
-  count_obj (ON n) (label_answers tg (o_ans orc) (rdflib_graph G) l).
-Proof.
-  intros F Wn. pose proof (df_ns _ _ _ _ F) as W. unfold items_part, label_answers.
-  destruct (t_items tg) as [its|] eqn:Ei; [|reflexivity].
-  pose proof (df_items _ _ _ _ F its Ei) as Hall. clear Ei.
-  induction its as [|it its IH]; [reflexivity|]. cbn [map flat_map].
-  rewrite count_str_app, count_obj_app. rewrite IH by (intros; apply Hall; right; assumption). f_equal.
-  destruct (ok_item_split _ _ _ _ _ (Hall it (or_introl eq_refl))) as [Hang [_ [Hsel Hiri]]].
-  unfold item_contrib, citem. cbn [pi_sel pi_label]. rewrite (sel_targets_csel _ _ _ _ _ W Hsel).
-  rewrite count_str_targets.
-  destruct (it_label it) as [i0|l0|p1 l1]; try discriminate. cbn [show_ref resolve].
-  change (Str "<" ++ l ++ Str ">") with (add_corners l). change (Str "<" ++ l0 ++ Str ">") with (add_corners l0).
-  rewrite add_corners_eqb. destruct (str_eqb l l0); [|reflexivity].
-  apply count_map_rdflib; [|assumption].
-  apply forallb_forall. intros x Hx. apply (proj1 (selects_list_rdflib _ _ _ _ _)) in Hx.
-  rewrite forallb_forall in Hiri. auto.
-Qed.
-
 Lemma class_count tau m G n c :
   wf_graph G = true -> wf_node n = true -> prefixb (Str "_:") c = false ->
   count_str c (class_contrib tau m (nid n) G) =
@@ -1083,30 +1126,6 @@ Proof.
   destruct (tune_one_ok _ _ r W (Hall r (or_introl eq_refl))) as [_ [Hres _]]. rewrite Hres. reflexivity.
 Qed.
 
-Theorem multiplicity tg cs fmt orc G :
-  C10_dom tg orc G = true -> nodup_graph G = true ->
-  exists d, run orc (to_tspec tg cs fmt) G = OOk d /\
-            forall S n, wf_key S = true -> wf_node n = true ->
-                        count_str (key_of S) (labels_of d (node_key n)) =
-                        count_obj (ON n) (denote_list tg (o_ans orc) G S).
-Proof.
-  intros Hdom Hnd. destruct (run_char tg cs fmt orc G Hdom) as [d [Hrun Hl]].
-  destruct (dom_facts_of _ _ _ Hdom) as [p0 F]. pose proof (df_ns _ _ _ _ F) as W.
-  exists d. split; [assumption|]. intros S n WS Wn. unfold node_key. rewrite Hl, count_str_app.
-  destruct (tau_ok _ _ _ W (df_tau _ _ _ _ F)) as [_ [Htau _]].
-  destruct S as [c|l]; cbn [key_of denote_list wf_key] in *.
-  - apply andb_true_iff in WS. destruct WS as [Wc1 Wc2]. apply negb_true_iff in Wc1. apply negb_true_iff in Wc2.
-    rewrite count_str_notin.
-    2:{ intros H. apply (items_part_angle _ _ _ _ _ _ F) in H. unfold has_corners in H. rewrite Wc2 in H. discriminate. }
-    cbn [Nat.add]. unfold class_part, class_answers. rewrite Htau, <- (mode_targets _ _ _ _ c F).
-    destruct (mode_of tg) as [m|]; [|reflexivity].
-    rewrite (class_count _ m _ _ _ (df_graph _ _ _ _ F) Wn Wc1). destruct m; reflexivity.
-  - rewrite (items_count _ _ _ _ _ _ F Wn), (rdflib_graph_nodup _ Hnd).
-    rewrite (count_str_notin _ (class_part tg G (nid n))); [apply Nat.add_0_r|].
-    intros H. apply (class_part_plain _ _ _ _ _ _ F) in H. destruct H as [H _].
-    rewrite has_corners_angle in H. discriminate.
-Qed.
-
 Lemma nodup_objs_count x l : nodup_objs l = true -> (count_obj x l <= 1)%nat.
 Proof.
   unfold count_obj. induction l as [|y l IH]; intros H; [cbn; lia|]. cbn [nodup_objs] in H.
@@ -1142,29 +1161,51 @@ Proof.
   rewrite Hnil. cbn. lia.
 Qed.
 
-Lemma label_answers_none tg ans G l : mem_str l (item_labels tg) = false -> label_answers tg ans G l = [].
+Lemma NoDup_count_str k l : NoDup l -> (count_str k l <= 1)%nat.
 Proof.
-  unfold label_answers, item_labels. destruct (t_items tg) as [its|]; [|reflexivity].
-  induction its as [|it its IH]; [reflexivity|]. cbn [flat_map].
-  destruct (resolve (t_ns tg) (it_label it)) as [l'|].
-  - cbn [app mem_str]. intros El. apply orb_false_iff in El. destruct El as [E1 E2]. rewrite E1. cbn [app]. auto.
-  - cbn [app]. auto.
+  unfold count_str. induction l as [|x l IH]; intros H; [cbn; lia|]. inversion H; subst. cbn [filter].
+  destruct (str_eqb k x) eqn:E; [|auto]. apply str_eqb_eq in E. subst x. cbn [List.length].
+  rewrite (count_str_notin k l H2 : List.length (filter (str_eqb k) l) = 0%nat). lia.
 Qed.
 
-(** on the counting domain every node carries a key at most once *)
+(** without repeated statements every node carries a key at most once: the
+    number of instances counted for a shape is the number of distinct nodes it denotes *)
 Theorem each_once tg cs fmt orc G :
   C10_dom_count tg orc G = true ->
   exists d, run orc (to_tspec tg cs fmt) G = OOk d /\
             forall S n, wf_key S = true -> wf_node n = true ->
                         (count_str (key_of S) (labels_of d (node_key n)) <= 1)%nat.
 Proof.
-  unfold C10_dom_count. intros H. apply andb_true_iff in H. destruct H as [H Hlab].
-  apply andb_true_iff in H. destruct H as [Hdom Hnd].
-  destruct (multiplicity tg cs fmt orc G Hdom Hnd) as [d [Hrun Hm]]. exists d. split; [assumption|].
-  intros S n WS Wn. rewrite (Hm S n WS Wn). destruct S as [c|l]; cbn [denote_list].
-  - unfold class_answers. destruct (resolve (t_ns tg) (t_tau tg)); [|cbn; lia].
-    destruct (class_targetedb tg c); [|cbn; lia]. apply class_answers_once. assumption.
-  - destruct (mem_str l (item_labels tg)) eqn:El.
-    + apply mem_str_In in El. rewrite forallb_forall in Hlab. apply nodup_objs_count. auto.
-    + rewrite (label_answers_none _ _ _ _ El). cbn. lia.
+  unfold C10_dom_count. intros H. apply andb_true_iff in H. destruct H as [Hdom Hnd].
+  destruct (run_char tg cs fmt orc G Hdom) as [d [L1 [Hrun [Hl [HL1 HN1]]]]].
+  destruct (dom_facts_of _ _ _ Hdom) as [p0 F].
+  exists d. split; [assumption|]. intros S n WS Wn. unfold node_key. rewrite Hl, count_str_app.
+  destruct S as [c|l]; cbn [key_of wf_key] in *.
+  - apply andb_true_iff in WS. destruct WS as [Wc1 Wc2]. apply negb_true_iff in Wc1. apply negb_true_iff in Wc2.
+    rewrite count_str_notin.
+    2:{ intros H. apply HL1 in H. apply (items_part_angle _ _ _ _ _ _ F) in H. unfold has_corners in H.
+        rewrite Wc2 in H. discriminate. }
+    cbn [Nat.add]. unfold class_part. destruct (mode_of tg) as [m|]; [|cbn; lia].
+    rewrite (class_count _ m _ _ _ (df_graph _ _ _ _ F) Wn Wc1).
+    destruct (match m with TAll => true | TClasses l => mem_str c l end); [|cbn; lia].
+    apply class_answers_once. assumption.
+  - rewrite (count_str_notin _ (class_part tg G (nid n))).
+    + rewrite Nat.add_0_r. apply NoDup_count_str. apply HN1.
+    + intros H. apply (class_part_plain _ _ _ _ _ _ F) in H. destruct H as [H _].
+      rewrite has_corners_angle in H. discriminate.
+Qed.
+
+(** the labels of a shape map alone are never repeated, whatever the document *)
+Theorem labels_once tg cs fmt orc G :
+  C10_dom tg orc G = true ->
+  exists d, run orc (to_tspec tg cs fmt) G = OOk d /\
+            forall l k, (count_str (Str "<" ++ l ++ Str ">") (labels_of d k) <= 1)%nat.
+Proof.
+  intros Hdom. destruct (run_char tg cs fmt orc G Hdom) as [d [L1 [Hrun [Hl [HL1 HN1]]]]].
+  destruct (dom_facts_of _ _ _ Hdom) as [p0 F].
+  exists d. split; [assumption|]. intros l k. rewrite Hl, count_str_app.
+  rewrite (count_str_notin _ (class_part tg G k)).
+  - rewrite Nat.add_0_r. apply NoDup_count_str. apply HN1.
+  - intros H. apply (class_part_plain _ _ _ _ _ _ F) in H. destruct H as [H _].
+    rewrite has_corners_angle in H. discriminate.
 Qed.
